@@ -855,7 +855,56 @@ func (g *pg) sysOp() {
 }
 
 // bytes for Deserialize: valid encodings of generated values, mutated
+// counts at the var-uint boundaries and at the int / int64 sign boundary (`for i := 0; i < int(l); i++`: a count >= 2^63 is negative)
+var headerCounts = []uint64{0, 1, 0xfc, 0xfd, 1024, 1025, 0xffff, 0x10000, 0xffffffff, 1 << 32, 1<<63 - 1, 1 << 63, 1<<63 + 1, 1<<64 - 1}
+
+func varUint(v uint64, canonical bool) []byte {
+	le := func(n int) []byte {
+		b := make([]byte, n)
+		for i := range b {
+			b[i] = byte(v >> (8 * uint(i)))
+		}
+		return b
+	}
+	switch {
+	case !canonical: // widest form: irregular unless the value needs it
+		return append([]byte{0xff}, le(8)...)
+	case v < 0xfd:
+		return []byte{byte(v)}
+	case v <= 0xffff:
+		return append([]byte{0xfd}, le(2)...)
+	case v <= 0xffffffff:
+		return append([]byte{0xfe}, le(4)...)
+	}
+	return append([]byte{0xff}, le(8)...)
+}
+
+// a container header (array / struct / map) with a boundary count, with or without items behind it, at the top level or nested under a
+// few one-element containers
+func genHeaderBoundary(r *hx.Rand) []byte {
+	tag := []byte{0x80, 0x81, 0x82}[r.Intn(3)]
+	cnt := headerCounts[r.Intn(len(headerCounts))]
+	b := append([]byte{tag}, varUint(cnt, !r.Chance(8))...)
+	for i := r.Intn(4); i > 0; i-- { // payload: some items (keys are primitive, so the same bytes serve as map entries)
+		b = append(b, 0x01, byte(r.Intn(2)))
+	}
+	for d := r.Intn(4); d > 0; d-- {
+		switch r.Intn(3) {
+		case 0:
+			b = append([]byte{0x80, 0x01}, b...)
+		case 1:
+			b = append([]byte{0x81, 0x01}, b...)
+		default:
+			b = append([]byte{0x82, 0x01, 0x00, 0x01, 0x6b}, b...) // {"k": …}
+		}
+	}
+	return b
+}
+
 func genSerialized(r *hx.Rand) []byte {
+	if r.Chance(35) {
+		return genHeaderBoundary(r)
+	}
 	var enc func(d int) []byte
 	enc = func(d int) []byte {
 		switch k := r.Intn(7); {
